@@ -256,35 +256,68 @@ def _edge_offset_types(P, g):
 
 
 # ------------------------------------------------------------------ graphs
-def _graphs(P, g):
-    tol = _tol(P)
-    np = P.np
+GRAPH_VARIANTS = ["copy", "vertex_order", "edge_order", "other_types", "smaller", "fewer_edges", "last_vertex_moved", "last_vertex_id", "dense_copy", "last_edge_differs"]
 
-    def build(kinds, order=(0, 1, 2), eorder=(0, 1), prefix=""):
-        v = [g.Vertex(i, mk_pose(P, g, kinds[i], "v%d" % i, wrapped=True)) for i in range(3)]
-        e = [g.EdgeOdometry([0, 1], np.eye(COMPACT[kinds[0]]), mk_pose(P, g, kinds[0], "z0", wrapped=True)), g.EdgeLandmark([1, 2], np.eye(COMPACT[kinds[2]]), mk_pose(P, g, kinds[2], "z1"), mk_pose(P, g, kinds[1], "off", wrapped=True), offset_id=0)]
-        return g.Graph([e[k] for k in eorder], [v[k] for k in order])
 
-    base = build(["SE2", "SE2", "R2"])
-    same = build(["SE2", "SE2", "R2"])
-    ok, r = safe(P, "copy", lambda: base.equals(same, tol))
-    if ok:
-        P.check("equal_graphs_true", P.same_truth(r, True))
-    variants = {
-        "vertex_order": build(["SE2", "SE2", "R2"], order=(1, 0, 2)),
-        "edge_order": build(["SE2", "SE2", "R2"], eorder=(1, 0)),
-        "other_types": build(["SE3", "SE3", "R3"]),
-    }
-    small = g.Graph([], [g.Vertex(0, mk_pose(P, g, "SE2", "v0", wrapped=True))])
-    variants["smaller"] = small
-    fewer_edges = build(["SE2", "SE2", "R2"])
-    fewer_edges._edges = fewer_edges._edges[:1]
-    variants["fewer_edges"] = fewer_edges
-    for name, other in variants.items():
-        for tag, x, y in ((name, base, other), (name + "_rev", other, base)):
-            ok, r = safe(P, tag, lambda: x.equals(y, tol))
-            if ok:
-                P.check(tag + "_false", P.same_truth(r, False))
+def _graphs(which):
+    """one variant per case (the paths of max(norm, tol) multiply inside a case)"""
+
+    def fn(P, g):
+        tol = _tol(P)
+        np = P.np
+
+        def build(kinds, order=(0, 1, 2), eorder=(0, 1)):
+            v = [g.Vertex(i, mk_pose(P, g, kinds[i], "v%d" % i, wrapped=True)) for i in range(3)]
+            e = [g.EdgeOdometry([0, 1], np.eye(COMPACT[kinds[0]]), mk_pose(P, g, kinds[0], "z0", wrapped=True)), g.EdgeLandmark([1, 2], np.eye(COMPACT[kinds[2]]), mk_pose(P, g, kinds[2], "z1"), mk_pose(P, g, kinds[1], "off", wrapped=True), offset_id=0)]
+            return g.Graph([e[k] for k in eorder], [v[k] for k in order])
+
+        def dense(shift):
+            v = [g.Vertex(i, mk_pose(P, g, "R2", "d%d" % i)) for i in range(2)]
+            e = [g.EdgeOdometry([0, 1], np.eye(2), g.PoseR2([P.real("dz%d" % k, lo=-3.0, hi=3.0) + (shift if k == 2 else 0.0), 0.5])) for k in range(3)]
+            return g.Graph(e, v)
+
+        def expect(tag, x, y, val):
+            for t, a, b in ((tag, x, y), (tag + "_rev", y, x)):
+                ok, r = safe(P, t, lambda: a.equals(b, tol))
+                if ok:
+                    P.check(t + ("_true" if val else "_false"), P.same_truth(r, val))
+
+        if which in ("dense_copy", "last_edge_differs"):
+            d0 = dense(0.0)
+            if which == "dense_copy":
+                expect("dense_equal", d0, dense(0.0), True)
+            else:
+                # 3 edges over 2 vertices: the difference sits in the edge at index >= number of vertices
+                expect("last_edge_differs", d0, dense(10.0), False)
+            return
+        base = build(["SE2", "SE2", "R2"])
+        if which == "copy":
+            expect("equal_graphs", base, build(["SE2", "SE2", "R2"]), True)
+        elif which == "vertex_order":
+            expect(which, base, build(["SE2", "SE2", "R2"], order=(1, 0, 2)), False)
+        elif which == "edge_order":
+            expect(which, base, build(["SE2", "SE2", "R2"], eorder=(1, 0)), False)
+        elif which == "other_types":
+            expect(which, base, build(["SE3", "SE3", "R3"]), False)
+        elif which == "smaller":
+            expect(which, base, g.Graph([], [g.Vertex(0, mk_pose(P, g, "SE2", "v0", wrapped=True))]), False)
+        elif which == "fewer_edges":
+            fewer = build(["SE2", "SE2", "R2"])
+            fewer._edges = fewer._edges[:1]
+            expect(which, base, fewer, False)
+        elif which == "last_vertex_moved":
+            # 2 edges, 3 vertices: the difference sits only in the vertex at index >= number of edges
+            for c in base._vertices[2].pose:
+                P.assume(P.both(c >= -3.0, c <= 3.0))  # |a| <= 4.3, so a shift by 10 is far outside the relative tolerance
+            moved = build(["SE2", "SE2", "R2"])
+            moved._vertices[2].pose = g.PoseR2([moved._vertices[2].pose[0] + 10.0, moved._vertices[2].pose[1]])
+            expect(which, base, moved, False)
+        elif which == "last_vertex_id":
+            other = build(["SE2", "SE2", "R2"])
+            other._vertices[2].id = 77
+            expect(which, base, other, False)
+
+    return fn
 
 
 def cases(tier):
@@ -297,7 +330,8 @@ def cases(tier):
             continue
         out.append(Case("edge-%s.%s-%s.%s" % (e1 + e2), _edge_pair(e1, e2), timeout=20, old_timeout=30, validate=1, feas_timeout_ms=1500))
     out.append(Case("edge-offset-and-estimate-types", _edge_offset_types, timeout=20, validate=2, feas_timeout_ms=1500))
-    out.append(Case("graphs", _graphs, timeout=20, validate=2, feas_timeout_ms=1500))
+    for which in GRAPH_VARIANTS:
+        out.append(Case("graphs-" + which, _graphs(which), timeout=20, validate=2, feas_timeout_ms=1500))
     for kind in POSE_KINDS:
         comps = range(FULL[kind]) if (tier == "thorough" or kind != "SE3") else (0, 6)
         for comp in comps:
